@@ -109,7 +109,19 @@ func (d *Decoder) Decode(bts []byte) (interface{}, error) {
 }
 
 //ReadObject read new object from reader
-func (d *Decoder) ReadObject() (interface{}, error) {
+func (d *Decoder) ReadObject() (obj interface{}, err error) {
+	// malformed input must come back as an error: the reflective assignments
+	// below panic on values that do not fit the registered types
+	defer func() {
+		if r := recover(); r != nil {
+			obj = nil
+			if e, ok := r.(error); ok {
+				err = newCodecError("ReadObject", "invalid input", e)
+			} else {
+				err = newCodecError("ReadObject", "invalid input: %v", r)
+			}
+		}
+	}()
 	return EnsureInterface(d.ReadData())
 }
 
